@@ -291,16 +291,17 @@ def main():
 
     # ---- 4c. C14 / C18: the grammar stream against Parse.v (DryRun container)
     raw_cov = None
-    if prop in ("C14", "C18") and all(f in built for f in ("GoTypes", "Parse", "RunRaw")):
+    if prop in ("C09", "C14", "C18") and all(f in built for f in ("GoTypes", "Parse", "RunRaw")):
         import rawcheck
-        rcorpus = load_corpus(prop + "-raw")
+        # (C09: the keys a registration offers and asks for are what its Info lists; same stream as C18)
+        rcorpus = load_corpus(("C18" if prop == "C09" else prop) + "-raw")
         rcases, rtraces, rM, rV, rdist = rawcheck.check(tier, seed, rcorpus)
         if prop == "C14":
             rviol = [(ci, oi, code) for (ci, oi, code) in rV]
             rmis = [(ci, oi) for (ci, oi, code) in rM if code == 1]
         else:
             rviol = [(ci, oi, 1800 + code) for (ci, oi, code) in rM if code == 2]
-            rmis = []
+            rmis = [(ci, oi) for (ci, oi, code) in rM if code == 1] if prop == "C09" else []
         raw_cov = dict(rdist, disagreements=len(set(m[0] for m in rmis)), checker_failures=len(rviol))
         seen_codes = set()
         for (ci, oi, code) in rviol:
@@ -328,6 +329,39 @@ def main():
                              {"property": prop, "obligation": "corr_raw: Parse.v and the implementation give the same verdict class on the grammar stream",
                               "disagreeing_case": rcases[ci], "operation": oi, "implementation_trace": rtraces[ci]})
             print(f"VIOLATION property={prop} replay={p} no-failing-input-found")
+            violations += 1
+
+    # ---- 4c-bis. C14: Visualize (plain and with the error of every failed Invoke) never panics, also on
+    #      histories over declared functions (distinct dig IDs) with failing decorators (unknown IDs)
+    vizpanic_cov = None
+    if prop == "C14":
+        pcases = gen.generate_viz(seed + 7, 120 if tier == "quick" else 6000, decorators=True)
+        pcases, ptraces = common.run_impl_parallel(pcases)
+        bad = [(ci, oi) for ci, t in enumerate(ptraces) for oi, ot in enumerate(t["ops"])
+               if ot.get("dot_err") == "PANIC" or not ot.get("viz_ok", True) or not ot.get("str_ok", True)
+               or ot["verdict"].get("v") in ("digpanic", "diverged")]
+        vizpanic_cov = dict(histories=len(pcases), error_graphs_drawn=sum(1 for t in ptraces for ot in t["ops"] if ot.get("dot_err")),
+                            failed_decorator_invokes=sum(1 for c, t in zip(pcases, ptraces) for o, ot in zip(c["ops"], t["ops"])
+                                                         if o["op"] == "invoke" and ot["verdict"].get("v") == "err"
+                                                         and any(x in (ot["verdict"].get("chain") or []) for x in ("paramgroup", "paramsingle"))),
+                            panics=len(bad))
+        if bad:
+            ci, oi = bad[0]
+
+            def ppred(cand, oi=oi):
+                cs, ts = common.run_impl([cand])
+                return any(ot.get("dot_err") == "PANIC" or not ot.get("viz_ok", True) or not ot.get("str_ok", True)
+                           or ot["verdict"].get("v") in ("digpanic", "diverged") for ot in ts[0]["ops"])
+            small = pcases[ci]
+            try:
+                small = shrink(spec, pcases[ci], ppred)
+            except Exception as e:
+                common.log("shrink failed:", e)
+            cs, ts = common.run_impl([small])
+            p = write_replay(prop, f"vizpanic-{case_hash(small)}",
+                             {"property": prop, "failing_code": 1401, "meaning": "dig (Provide / Decorate / Invoke, Visualize, Visualize with the Invoke's error, or String) panicked",
+                              "case": cs[0], "implementation_trace": ts[0]})
+            print(f"VIOLATION property={prop} replay={p}")
             violations += 1
 
     # ---- 4c'. C18: constructor IDs of declared functions (distinct functions distinct IDs, same function same ID)
@@ -491,6 +525,9 @@ def main():
     if reent_cov:
         cov["reentrant_user_code"] = reent_cov
         cov["evaluations"] += reent_cov["histories"]
+    if vizpanic_cov:
+        cov["visualize_never_panics"] = vizpanic_cov
+        cov["evaluations"] += vizpanic_cov["histories"]
     if name_cov:
         cov["callback_names"] = name_cov
     if id_cov:
